@@ -664,5 +664,9 @@ PROPS["C04"]["rules"] = PROPS["C04"]["rules"] + [rules_cache.rule_cache_open_fla
 PROPS["C04"]["explanation"] += " (MCFLAG) every chunk cache is opened with flags 0, so pages come in through the filter that supplies the fill value. (QUOTREM) byte and bit index of a bit position are quotient and remainder of the same quantity."
 PROPS["C05"]["rules"] = PROPS["C05"]["rules"] + [rules_coders.rule_quotient_remainder_pair]
 
+PROPS["C20"]["rules"] = PROPS["C20"]["rules"] + [rules_bounds.rule_unbounded_name_reads]
+PROPS["C20"]["explanation"] += " (NAMEBUF) inside the library a Vgroup's name or class is copied into a fixed array only after its length was queried."
+PROPS["C08"]["rules"] = PROPS["C08"]["rules"] + [rules_bounds.rule_unbounded_name_reads]
+
 NOT_APPLICABLE = {}
 
